@@ -183,21 +183,15 @@ func (w *catWriter) fn(f *Func) {
 	if f.Variadic {
 		params = append(params, "_ ...string")
 	}
-	ei := f.ErrIndex()
-	off := 0
-	for i, r := range f.Results {
-		if i == ei {
-			off = 1
+	for k, x := range f.Layout() {
+		if x < 0 {
 			rets = append(rets, "error")
-			conv = append(conv, fmt.Sprintf("catErr(out[%d])", ei))
+			conv = append(conv, fmt.Sprintf("catErr(out[%d])", k))
+			continue
 		}
-		t := w.resultGoType(f, r, fmt.Sprint(i), true)
+		t := w.resultGoType(f, f.Results[x], fmt.Sprint(x), true)
 		rets = append(rets, t)
-		conv = append(conv, fmt.Sprintf("out[%d].Interface().(%s)", i+off, t))
-	}
-	if ei >= 0 && ei == len(f.Results) {
-		rets = append(rets, "error")
-		conv = append(conv, fmt.Sprintf("catErr(out[%d])", len(f.Results)))
+		conv = append(conv, fmt.Sprintf("out[%d].Interface().(%s)", k, t))
 	}
 	fmt.Fprintf(&w.b, "func Cat%d(%s) (%s) {\n", f.ID, strings.Join(params, ", "), strings.Join(rets, ", "))
 	if len(rets) == 0 {
